@@ -753,6 +753,7 @@ package expr
 //@   requires verr != nil
 //@   ensures* records.an.error: len(verr.Errors) > old(len(verr.Errors))
 //@ func (*HTTPEndpointExpr).validateParams$2
+//@   params name _ a
 //@   property C01
 //@   captures invalidTypeErr:func(verr*eval.ValidationErrors,e*expr.HTTPEndpointExpr,namestring) verr:*eval.ValidationErrors e:*expr.HTTPEndpointExpr
 //@   opt captured private
